@@ -79,6 +79,9 @@ func GenSSHCertFileString(username string, userPubKey string, signer ssh.Signer,
 	if err != nil {
 		return "", cert, err
 	}
+	if duration < 0 {
+		return "", cert, errors.New("negative certificate duration")
+	}
 	keyIdentity := host_identity + "_" + username
 
 	currentEpoch := uint64(time.Now().Unix())
